@@ -96,7 +96,8 @@ import random
 def gen():
     """TLC witness generation (one shortest token sequence per coarse state class of MC_Term.GenView)."""
     res = {}
-    for name, cfg in (("ansi", "Gen_Term.cfg"), ("tabs", "Gen_Term_tabs.cfg"), ("resize", "Gen_Term_resize.cfg"), ("avatar", "Gen_Term_avatar.cfg"), ("ctrla", "Gen_Term_ctrla.cfg")):
+    for name, cfg in (("ansi", "Gen_Term.cfg"), ("tabs", "Gen_Term_tabs.cfg"), ("resize", "Gen_Term_resize.cfg"), ("avatar", "Gen_Term_avatar.cfg"), ("ctrla", "Gen_Term_ctrla.cfg"),
+                      ("atascii", "Gen_Term_atascii.cfg"), ("petscii", "Gen_Term_petscii.cfg")):
         res[name] = vlib.generate(SPEC, "MC_Term", cfg, os.path.join(vlib.GEN, f"term_witness_{name}.ndjson"), timeout=1500)
     return res
 
@@ -118,7 +119,7 @@ def witness_cases(c, n_shards, per_witness, seed, max_cases=None, extra_sizes=((
     gen()
     rng = random.Random(seed * 7919 + 17)
     cases = []
-    for emu0 in ("ansi", "tabs", "resize", "avatar", "ctrla"):
+    for emu0 in ("ansi", "tabs", "resize", "avatar", "ctrla", "atascii", "petscii"):
         alphabet, wit = load_witnesses(emu0)
         emu = "ansi" if emu0 in ("tabs", "resize") else emu0
         gw = 9 if emu0 == "tabs" else 3        # screen width the witnesses were generated for
